@@ -66,7 +66,13 @@
 #endif
 #define PQN ((size_t)(VERIF_PQ_N))
 #define PQK (VERIF_PQ_N + 1) /* handle pool: one handle per slot plus one that is never in the queue */
-#define PQ_CAPMAX PQN        /* capacity bound of the PRE-state (growth may double it once) */
+/* capacity bound (elements / handle slots) of the pre-state.  2N: the set {length <= N, capacity <= 2N} is closed under
+ * every operation that keeps length <= N (storage grows only when length == capacity < N, to at most 2N-2). */
+#ifdef VERIF_PQ_CAPMAX
+#    define PQ_CAPMAX ((size_t)(VERIF_PQ_CAPMAX))
+#else
+#    define PQ_CAPMAX (2 * PQN)
+#endif
 #define PQ_PSZ (sizeof(struct aws_priority_queue_node *))
 
 #if VERIF_PQ_N == 3
@@ -97,6 +103,7 @@ uint8_t g_out_b;
 bool g_moved; /* sift: whether the element has to move */
 /* pre-state of the struct fields */
 size_t g0_len, g0_cur, g0_bpcur, g0_idx;
+int g0_raise;
 void *g0_data, *g0_bpdata;
 struct aws_allocator *g0_alloc;
 
@@ -194,7 +201,7 @@ bool g_phase_post;
 #define PQ_C_PINS(REQ, q)                                                                                              \
     REQ("pin", g0_len == PQ_LEN(q) && g0_cur == PQ_CUR(q) && g0_data == (q)->container.data &&                         \
                    g0_alloc == (q)->container.alloc && g0_bpdata == (q)->backpointers.data &&                          \
-                   g0_bpcur == (q)->backpointers.current_size)                                                         \
+                   g0_bpcur == (q)->backpointers.current_size && g0_raise == g_raise_count)                            \
     REQ("pin", g_on ==> g_pj < ISZ && g_h < PQK && g_pos == g_ki)                                                      \
     REQ("pin", g_on && g_ki < PQ_LEN(q) ==> g_ki_key == PQ_KEY(q, g_ki) && g_ki_b == PQ_B(q, g_ki, g_pj) &&            \
                                                 g_ki_bp == (PQ_BP_LIVE(q) ? PQ_BPA(q)[g_ki] : NULL))                   \
@@ -362,6 +369,7 @@ PQ_A_REMOVE(queue, 1)
     PQ_C_PINS(REQ, queue)                                                                                              \
     ENS("succeeds exactly on a non-empty queue", (ret == AWS_OP_SUCCESS) == (g0_len > 0) && (ret == AWS_OP_SUCCESS || ret == AWS_OP_ERR)) \
     ENS("empty queue refused with PRIORITY_QUEUE_EMPTY", ret != AWS_OP_SUCCESS ==> g_last_error == AWS_ERROR_PRIORITY_QUEUE_EMPTY) \
+    ENS("no error raised on success", ret == AWS_OP_SUCCESS ==> g_raise_count == g0_raise)                             \
     PQ_C_REMOVED(ENS, queue, item, g0_len > 0, 0)                                                                      \
     ENS("the popped element is a minimum of everything that was stored",                                               \
         g_on && ret == AWS_OP_SUCCESS && g_ki < g0_len ==> PQ_RANKOF(((uint8_t *)item)[0]) <= PQ_RANKOF(g_ki_key))
@@ -388,6 +396,7 @@ AL_ERR_FRAME(PQ_LEN(queue) == 0)
     ENS("stale handle refused with PRIORITY_QUEUE_BAD_NODE and left alone",                                            \
         ret != AWS_OP_SUCCESS ==> g_last_error == AWS_ERROR_PRIORITY_QUEUE_BAD_NODE && (node)->current_index == g0_idx) \
     ENS("the handle is marked not-in-queue on success", ret == AWS_OP_SUCCESS ==> (node)->current_index == SIZE_MAX)   \
+    ENS("no error raised on success", ret == AWS_OP_SUCCESS ==> g_raise_count == g0_raise)                             \
     PQ_C_REMOVED(ENS, queue, item, PQ_REMOVE_OK, g0_idx)
 
 int aws_priority_queue_remove(struct aws_priority_queue *queue, void *item, const struct aws_priority_queue_node *node)
@@ -403,7 +412,7 @@ AL_ERR_FRAME(!(PQ_BP_LIVE(queue) && node->current_index < PQ_LEN(queue)))
     PQ_C_PINS(REQ, queue)                                                                                              \
     ENS("succeeds exactly on a non-empty queue", (ret == AWS_OP_SUCCESS) == (g0_len > 0) && (ret == AWS_OP_SUCCESS || ret == AWS_OP_ERR)) \
     ENS("empty queue refused with PRIORITY_QUEUE_EMPTY", ret != AWS_OP_SUCCESS ==> g_last_error == AWS_ERROR_PRIORITY_QUEUE_EMPTY) \
-    ENS("result points at slot 0", ret == AWS_OP_SUCCESS ==> *(item) == (queue)->container.data)                       \
+    ENS("result points at slot 0", ret == AWS_OP_SUCCESS ==> *(item) == (queue)->container.data && g_raise_count == g0_raise) \
     ENS("slot 0 is a minimum of everything stored",                                                                    \
         g_on && ret == AWS_OP_SUCCESS && g_ki < g0_len ==> PQ_RANK(queue, 0) <= PQ_RANKOF(g_ki_key))                   \
     ENS("queue unchanged", PQ_STATE(queue) && PQ_HO(queue) && PQ_FIELDS_KEPT(queue) && PQ_LEN(queue) == g0_len &&      \
@@ -439,6 +448,7 @@ AL_ERR_FRAME(PQ_LEN(queue) == 0)
         (ret == AWS_OP_SUCCESS) == PQ_PUSH_OK(bp) && (ret == AWS_OP_SUCCESS || ret == AWS_OP_ERR))                     \
     ENS("full static queue refuses with LIST_EXCEEDS_MAX_SIZE", ret != AWS_OP_SUCCESS && PQ_FULL0 ==> g_last_error == AWS_ERROR_LIST_EXCEEDS_MAX_SIZE) \
     ENS("static queue refuses a handle with UNSUPPORTED_OPERATION", ret != AWS_OP_SUCCESS && !PQ_FULL0 ==> g_last_error == AWS_ERROR_UNSUPPORTED_OPERATION) \
+    ENS("no error raised on success", ret == AWS_OP_SUCCESS ==> g_raise_count == g0_raise)                             \
     ENS("representation invariant and heap order kept", PQ_STATE(q) && PQ_HO(q))                                       \
     ENS("size increases by one exactly on success", PQ_LEN(q) == g0_len + (ret == AWS_OP_SUCCESS ? 1 : 0))             \
     ENS("storage doubles (or becomes one element) when a dynamic queue is full, otherwise stays",                      \
